@@ -188,7 +188,11 @@ EvalField(C, node, f, path) ==
       \* deviation FragPathSegment: ggql inserts one extra path segment per named fragment the
       \* selection was reached through (canonicalised to "f:" by the harness)
       p == path \o (IF "FragPathSegment" \in C.dv THEN [i \in 1..f.via |-> "f:"] ELSE <<>>) \o <<PathKey(Key(f))>>
-  IN IF f.name = "__typename" THEN Res(StrV(tn), <<>>, <<>>)
+      \* the meta fields take no argument but the name of __type (C10)
+      metaBad == IF f.name = "__type" THEN ArgNames(f) \ {"name"} ELSE ArgNames(f)
+  IN IF f.name \in {"__typename", "__schema", "__type"} /\ metaBad # {}
+     THEN Res(V("absent", 0), <<ErrRec(p, "undefined_arg", CHOOSE n \in metaBad : TRUE)>>, <<>>)
+     ELSE IF f.name = "__typename" THEN Res(StrV(tn), <<>>, <<>>)
      \* __schema and __type are fields of the query root type only (whatever that type is called): anywhere else they
      \* are undefined fields (C10).  What they answer on the root is Introspect.tla's subject (C17); IntroShape above.
      ELSE IF f.name \in {"__schema", "__type"} /\ tn # C.U.nodeType[C.U.roots["query"]]
